@@ -11,4 +11,5 @@ CONSTANTS
   Hosts = {"h1"}
   MaxCalls = 0
   Locked = TRUE
+  SplitGet = FALSE
   Unique = TRUE
